@@ -9,7 +9,8 @@ import toy
 
 REQUIRED_THEOREMS = [
     'C02_shapeEta_routing', 'C02_call_offsets', 'C02_kinds', 'C02_every_kind_usable',
-    'C02_truncGauss_counterexample', 'C02_ids', 'C02_names_length']
+    'C02_truncGauss_counterexample', 'C02_ids', 'C02_names_length', 'C02_name_of_position',
+    'cutSpecial_routing', 'cutSpecial_length']
 RULE = ('random compositions of 1-4 population sub-models (Gaussian / log-normal centred and non-centred, '
         'truncated Gaussian, pooled, heterogeneous; 1-3 dims each; covariate wrappers with 1-2 covariates and '
         'random selections; optional ReducedPopulationModel with fixed subsets; bare or composed), 1-4 '
